@@ -29,9 +29,8 @@ fn all_backends(ctx: &Ctx, external: bool) -> Vec<Backend> {
 
 fn usable<T: HLabel>(built: &Built<T>, t: &Target) -> Vec<Enc> {
     let cost = exp_cost_built(built);
-    t.ty.encoders(t.kind)
-        .iter()
-        .copied()
+    t.ty.configs(t.kind)
+        .into_iter()
         .filter(|e| !(*e == Enc::ExpCo && cost > EXP_COST_LIMIT))
         .collect()
 }
@@ -124,7 +123,8 @@ fn configs<T: HLabel>(ctx: &mut Ctx, case: &StaticCase, built: &Built<T>, oracle
             }
             for _ in 0..2 {
                 let e = encs[rng.below(encs.len())];
-                let b = backends[rng.below(backends.len())].clone();
+                // `new(af)` takes no factory: it always runs on the embedded solver
+                let b = if e == Enc::New { Backend::Cadical } else { backends[rng.below(backends.len())].clone() };
                 let c = t.kind != QKind::SE && rng.pct(50);
                 combos.push((e, b, c, "combination"));
             }
